@@ -146,6 +146,109 @@ theorem kf_rotate_flip_unusable : ∀ c, (c = .Rotate ∨ c = .Flip) → classCo
     | (right; intro w; cases w <;> rfl)
     | (exfalso; revert h; decide)
 
+/-! ### structure of the generated table (each fact is evaluated on `Gen.codeMul` / `Gen.codePropagate`: an edit of
+`_mul_ptype_table` or `_propagate_ptype` that changes it stops the proof) -/
+
+/-- the plane type as a wavefront type, for the two plane types that set one -/
+def PType.sets : PType → Option WType
+  | .pupil => some .pupil
+  | .image => some .image
+  | _ => none
+
+/-- "Not allowed", characterised: a product is refused exactly when the wavefront already has a type (pupil or image) and the
+plane is an untyped `none` plane or a plane of the OTHER type; an untyped wavefront accepts every plane, and tilt / transform
+planes are accepted by every wavefront — whatever ptype the caller constructs the plane with, only this pair matters -/
+theorem mul_refused_iff : ∀ w p, (∃ e, codeMul w p = .refused e) ↔
+    w ≠ .none ∧ (p = .none ∨ ∃ t, PType.sets p = some t ∧ t ≠ w) := by
+  intro w p; cases w <;> cases p <;> simp [codeMul, PType.sets]
+
+/-- the type after an accepted product: a typed wavefront keeps its type; an untyped wavefront takes the type of a pupil or
+image plane and stays untyped under every other plane -/
+theorem mul_result_type : ∀ w p w', codeMul w p = .ok w' →
+    w' = (if w = .none then (PType.sets p).getD .none else w) := by
+  intro w p w'; cases w <;> cases p <;> simp [codeMul, PType.sets] <;> exact fun h => h.symm
+
+/-- tilt and transform planes never change the type and are never refused -/
+theorem tilt_transform_neutral : ∀ w, codeMul w .tilt = .ok w ∧ codeMul w .transform = .ok w := by
+  intro w; cases w <;> exact ⟨rfl, rfl⟩
+
+/-- applying an accepted plane type a second time is accepted and changes nothing more -/
+theorem mul_idempotent : ∀ w p w', codeMul w p = .ok w' → codeMul w' p = .ok w' := by
+  intro w p w'; cases w <;> cases p <;> cases w' <;> simp [codeMul]
+
+/-- far-field propagation is an involution on the types it accepts: pupil → image → pupil -/
+theorem propagate_involutive : ∀ w w', codePropagate w = .ok w' → codePropagate w' = .ok w := by
+  intro w w'; cases w <;> cases w' <;> simp [codePropagate]
+
+/-- tilt / transform multiplications can be dropped from ANY program without changing the type it ends in (they are neutral
+and never refused): the type bookkeeping of a system does not depend on where its tilts, rotations and flips stand -/
+theorem neutral_planes_can_be_dropped : ∀ (prog : List Op) (w : WType),
+    finalWith codeMul codePropagate w prog
+      = finalWith codeMul codePropagate w (prog.filter fun op => op ≠ .mul .tilt ∧ op ≠ .mul .transform) := by
+  intro prog
+  induction prog with
+  | nil => intro w; rfl
+  | cons op rest ih =>
+    intro w
+    by_cases h : op = .mul .tilt ∨ op = .mul .transform
+    · have hn : next w (stepWith codeMul codePropagate w op) = w := by
+        rcases h with rfl | rfl
+        · simp only [stepWith, (tilt_transform_neutral w).1, next]
+        · simp only [stepWith, (tilt_transform_neutral w).2, next]
+      have hf : (decide (op ≠ .mul .tilt ∧ op ≠ .mul .transform)) = false := by
+        rcases h with rfl | rfl <;> simp
+      simp only [finalWith, hn, List.filter_cons, hf]
+      exact ih w
+    · have hf : (decide (op ≠ .mul .tilt ∧ op ≠ .mul .transform)) = true := by
+        simp only [not_or] at h; simp [h.1, h.2]
+      simp only [finalWith, List.filter_cons, hf, if_true]
+      exact ih _
+
+/-- the documented way to build a system is accepted, for ANY number of tilt-type planes (Tilt, DispersiveTilt, Grism) in the
+pupil and in the image space: Pupil, tilts…, propagate, tilts…, Image — every step is accepted from an untyped wavefront and the
+wavefront ends as an image -/
+theorem standard_system_accepted (t₁ t₂ : List PlaneClass) (h₁ : ∀ c ∈ t₁, classPtype c = .tilt ∧ classCustomMul c = false ∧ classForce c = none)
+    (h₂ : ∀ c ∈ t₂, classPtype c = .tilt ∧ classCustomMul c = false ∧ classForce c = none) :
+    classRun .none ([.mul .Pupil] ++ t₁.map .mul ++ [.prop] ++ t₂.map .mul ++ [.mul .Image])
+      = [.ok .pupil] ++ t₁.map (fun _ => .ok .pupil) ++ [.ok .image] ++ t₂.map (fun _ => .ok .image) ++ [.ok .image] := by
+  have tilts : ∀ (w : WType) (t : List PlaneClass) (rest : List COp),
+      (∀ c ∈ t, classPtype c = .tilt ∧ classCustomMul c = false ∧ classForce c = none) →
+      classRun w (t.map .mul ++ rest) = t.map (fun _ => .ok w) ++ classRun w rest := by
+    intro w t rest
+    induction t with
+    | nil => intro _; rfl
+    | cons c t ih =>
+      intro h
+      obtain ⟨hp, hc, hf⟩ := h c (by simp)
+      have hm : classMul c w = .ok w := by
+        simp only [classMul, hc, hp, (tilt_transform_neutral w).1, hf]; rfl
+      simp only [List.map_cons, List.cons_append, classRun, classStep, hm, next]
+      rw [ih (fun c' hc' => h c' (by simp [hc']))]
+  have e : [COp.mul .Pupil] ++ t₁.map .mul ++ [.prop] ++ t₂.map .mul ++ [.mul .Image]
+      = .mul .Pupil :: (t₁.map .mul ++ (.prop :: (t₂.map .mul ++ [.mul .Image]))) := by simp
+  rw [e]
+  have hP : classMul .Pupil .none = .ok .pupil := rfl
+  simp only [classRun, classStep, hP, next]
+  rw [tilts .pupil t₁ _ h₁]
+  have hpr : codePropagate .pupil = .ok .image := rfl
+  simp only [classRun, classStep, hpr, next]
+  rw [tilts .image t₂ _ h₂]
+  have hI : classMul .Image .image = .ok .image := rfl
+  simp [classRun, classStep, hI]
+
+/-- the three tilt-type classes of today's table satisfy the hypotheses of `standard_system_accepted` -/
+example : ∀ c ∈ [PlaneClass.Tilt, .DispersiveTilt, .Grism], classPtype c = .tilt ∧ classCustomMul c = false ∧ classForce c = none := by
+  decide
+
+/-- a refused step leaves the wavefront TYPE where it was, and a program of refused steps only ends where it started. A fact
+about how the MODEL threads the state through a program (`next`), listed so that the texts can point at it; that the
+implementation leaves both operands unchanged on a refusal is carried by `no_write_before_guard` (structure) and the snapshot
+oracle (values), not by this theorem. -/
+theorem refused_steps_keep_type :
+    (∀ w op e, codeStep w op = .refused e → next w (codeStep w op) = w)
+    ∧ (∀ (prog : List Op) (w : WType), (∀ r ∈ codeRun w prog, ∃ e, r = .refused e) →
+        finalWith codeMul codePropagate w prog = w) := refusal_preserves_state
+
 /-- non-vacuity: a concrete mixed program with accepted and refused steps -/
 example : codeRun .none [.mul .pupil, .mul .tilt, .prop, .mul .pupil, .mul .transform, .prop, .mul .none]
     = [.ok .pupil, .ok .pupil, .ok .image, .refused .typeError, .ok .image, .ok .pupil, .refused .typeError] := rfl
